@@ -72,6 +72,11 @@ func c04Symbol(sym int, exp uint8) (ch, seq uint8) {
 }
 
 func c04Run(L int, tcp bool, prefix int, consumerModes int) func() {
+	return c04RunF(L, tcp, prefix, consumerModes, 0)
+}
+
+// c04RunF: as c04Run; up to failAcks socket writes of acknowledgements fail (transient send error).
+func c04RunF(L int, tcp bool, prefix int, consumerModes int, failAcks int) func() {
 	return func() {
 		network := "udp"
 		if tcp {
@@ -79,6 +84,14 @@ func c04Run(L int, tcp bool, prefix int, consumerModes int) func() {
 		}
 		sock := fakesock.New(network)
 		NewGateway(sock, c04Channel)
+		failLeft := failAcks
+		sock.FailSend = func(p knxnet.ServicePackable) error {
+			if _, isAck := p.(*knxnet.TunnelRes); isAck && failLeft > 0 && mc.Choose(2, mc.Fault) == 1 {
+				failLeft--
+				return fakesock.ErrSockClosed
+			}
+			return nil
+		}
 		cfg := TCfg(100, 350, 1000000)
 		cfg.UseTCP = tcp
 		t, err := knx.NewTunnelOnSocket(sock, knxnet.TunnelLayerData, cfg)
@@ -302,6 +315,7 @@ func c04ReconnectOracle(tr *mc.Trace) []h.Violation {
 
 func init() {
 	register("both", &h.Scenario{Name: "C04-udp-stalled-reader-across-reconnect", Prop: "C04", P: 2, F: 0, D: 2, Run: c04Reconnect(), Check: c04ReconnectOracle})
+	register("both", &h.Scenario{Name: "C04-udp-stream4-ack-write-fails", Prop: "C04", P: 0, F: 2, D: -1, Run: c04RunF(4, false, 0, 2, 2), Check: c04Oracle(false)})
 	register("both", &h.Scenario{Name: "C04-udp-stream4", Prop: "C04", P: 1, F: 0, D: 1, Run: c04Run(4, false, 0, 3), Check: c04Oracle(false)})
 	register("quick", &h.Scenario{Name: "C04-udp-stream5-p0", Prop: "C04", P: 0, F: 0, D: 0, Run: c04Run(5, false, 0, 3), Check: c04Oracle(false)})
 	register("both", &h.Scenario{Name: "C04-udp-wrap254+stream3", Prop: "C04", P: 1, F: 0, D: 1, Run: c04Run(3, false, 254, 2), Check: c04Oracle(false)})
